@@ -5,6 +5,17 @@ import json, sys
 pid = sys.argv[1]
 n = sys.argv[2] if len(sys.argv) > 2 else "2"
 p = next(json.loads(l) for l in open('/verif/properties.jsonl') if json.loads(l)['id'] == pid)
+import glob, re
+avoid = []
+for d in sorted(glob.glob(f'/verif/seeded/{pid}-*/meta.json')):
+    try:
+        m = json.load(open(d))
+        avoid.append("- " + re.sub(r"\s+", " ", m.get("what", ""))[:260])
+    except Exception:
+        pass
+AVOID = ""
+if avoid:
+    AVOID = "\nALREADY COVERED by earlier contributors - produce mutants that break the property through DIFFERENT functions/mechanisms than these:\n" + "\n".join(avoid) + "\n"
 print(f"""You are helping to evaluate verification tooling for the Go library pion/webrtc (module github.com/pion/webrtc/v4).
 You have your own scratch git worktree of the library at /tmp/wt/{pid} (a detached checkout of the pinned commit). Work ONLY inside /tmp/wt/{pid} and /tmp/seeded-out/{pid}. Do NOT read or touch /verif or /repo, and do not look at any other directory under /tmp.
 
@@ -17,7 +28,7 @@ TASK: produce {n} DIFFERENT, independent source changes ("mutants") to the libra
   2. still COMPILES, and the library's EXISTING test suite still PASSES unchanged (you must not edit or delete any existing test);
   3. is REALISTIC: the kind of slip a maintainer could make in a refactor or "small fix" (a dropped guard, a reordered statement, a changed constant, a condition widened/narrowed, a lock region split, one of two cooperating sites changed), small (a few lines);
   4. is SUBTLE: it needs something specific to manifest - a particular interleaving, a fault at a particular point, a multi-step sequence of API calls, an unusual input, or two cooperating sites that each look fine alone - NOT something ordinary use or the existing tests expose at once.
-Prefer changing the code that is meant to make the property hold. Make the {n} mutants touch different mechanisms/sites if possible.
+{AVOID}Prefer changing the code that is meant to make the property hold. Make the {n} mutants touch different mechanisms/sites if possible.
 
 For each mutant k = 1..{n} write into /tmp/seeded-out/{pid}/m<k>/ :
   - patch.diff : output of `git -C /tmp/wt/{pid} diff` for that mutant alone (relative to the pinned commit; must apply with `git apply` at the repo root);
